@@ -134,7 +134,9 @@ def record_fick(data, want=("steps", "dec", "chk", "trace")):
             _ = (p3.has_import, p3.has_call, p3.has_non_setstate_call, list(p3.properties.imports), list(p3.properties.calls),
                  list(p3.properties.non_setstate_calls))
             third = an.check_safety(p3)
-            c["sev"] = min(c["sev"], sevnum(an, again.severity), sevnum(an, third.severity))
+            # ... and the verdict is not a reporting matter: asking for terse output does not lower it
+            terse = an.check_safety(p3, verbosity=an.Severity.OVERTLY_MALICIOUS)
+            c["sev"] = min(c["sev"], sevnum(an, again.severity), sevnum(an, third.severity), sevnum(an, terse.severity))
             # ... and once more after an eval call was injected into this very object (analysed before the edit): whatever
             # else the program does, it now calls eval
             if names and names[-1] == "STOP":
